@@ -20,10 +20,10 @@ def c17_part(chk, tier, rng):
 def c04_part(chk, tier, rng):
     """crash atomicity: the recovered contents must equal the effect of a set of WHOLE batches (per-log prefixes)"""
     import wl_run, crash_gen
-    chk.rules.append('crash images (kill and power-loss variants) of histories with multi-operation batches spanning several 32 KiB log blocks: the recovered contents must be those of a '
+    chk.rules.append('crash images (kill, torn-tail and zero-block variants) of histories with multi-operation batches spanning several 32 KiB log blocks: the recovered contents must be those of a '
                      'set of whole batches (the crash oracle builds its reference from whole batches only)')
-    fam = lambda r, db, img, nops_: crash_gen.history(r, db, img, nops_, '03', False, 30 if tier == 'quick' else 300)
-    wl_run.run_histories(chk, 4 if tier == 'quick' else 80, 22 if tier == 'quick' else 30, {'crashview', 'crashinvented', 'crashopen'}, 'batch-crash-atomicity', family=fam)
+    fam = lambda r, db, img, nops_: crash_gen.history(r, db, img, nops_, '035', False, 30 if tier == 'quick' else 300)
+    wl_run.run_histories(chk, 6 if tier == 'quick' else 80, 22 if tier == 'quick' else 30, {'crashview', 'crashinvented', 'crashopen', 'batchatomic', 'crashsync'}, 'batch-crash-atomicity', family=fam)
 
 
 def c20_part(chk, tier, rng):
